@@ -188,6 +188,54 @@ example : EvalsBody {} 0 ([.prim (.int 1) none] ++ [.call (.prim (.int 2) none) 
     (.ok (.tailCall (.prim (.int 2) none) [] 0)) {} :=
   tail_body_last_judgement (.cons (Evals.prim rfl) .nil) EvalsTail.call
 
+/-! ## 5. the general principle: a call in tail position is a pending call of the same loop
+
+`InTail sub e` — `sub` is `e`, or in an arm of a tail `if`, or the last body expression of a `lambda`
+that is the operator of a tail call. `TailPath env σ ρ e σs ρs sub` — evaluation of the tail
+expression `e` arrives at `sub` (the tests select the arms, the lambdas' operands, definitions and
+earlier body expressions evaluate). `TailRuns env σ ρ e r σ'` — the running loop, having the tail
+expression `e` to evaluate, ends with `r`, `σ'`. `PendingRuns` — the same for a pending call. -/
+
+/-- If `sub` is in tail position of `e` and evaluation reaches it (`TailPath`), then `sub` is
+evaluated as a tail expression OF THE SAME LOOP, at the same depth: whatever the loop does from
+`sub` on is what it does from `e` on. No `applyProcedure` activation is opened on the way — the
+lambdas on the path are applied by the trampoline. -/
+theorem intail_no_activation {env σ ρ e σs ρs sub} (h : TailPath env σ ρ e σs ρs sub) :
+    InTail sub e ∧ σs.depth = σ.depth ∧
+    ∀ r σ', TailRuns env σs ρs sub r σ' → TailRuns env σ ρ e r σ' :=
+  ⟨h.spec.1, h.spec.2.1.1, h.spec.2.2⟩
+
+/-- in particular, when `sub` is a call: operator and operands are evaluated and THE LOOP CONTINUES
+with the callee (`Applies`, the loop — not `AppliesProc`, an activation), in a store of the depth
+the tail expression `e` was entered with -/
+theorem intail_call_continues_loop {env σ ρ e σs ρs f targs l fv σ₂ vs σ₃ r σ'}
+    (h : TailPath env σ ρ e σs ρs (.call f targs l)) (hf : Evals σs ρs f (.ok fv) σ₂)
+    (hargs : EvalsArgs σ₂ ρs targs (.ok vs) σ₃) (hp : (procArity fv).isSome)
+    (hl : Applies σ₃ fv vs env r σ') :
+    σ₃.depth = σ.depth ∧ TailRuns env σ ρ e r σ' :=
+  ⟨((h.spec.2.1.trans hf.depthOk).trans hargs.depthOk).1,
+   h.spec.2.2 r σ' (TailRuns.call (.inr ⟨fv, σ₂, hf, .inr ⟨vs, σ₃, hargs, .inr ⟨hp, hl⟩⟩⟩))⟩
+
+/-- and a procedure whose body ends in `e` (parameters bound, definitions and earlier body
+expressions evaluated): applying it in the loop is `TailRuns` of `e` -/
+theorem tail_expression_of_body {env σ formals defs pre last cenv args restArgs σ₁ σ₂ σ₃ r σ'}
+    (ha : arityOk formals.fixed.length formals.rest.isSome args.length = true)
+    (hb : bindFixed (σ.newFrame (some cenv)).2 (σ.newFrame (some cenv)).1 formals.fixed args = (.ok restArgs, σ₁))
+    (hd : EvalsDefSeq (σ.newFrame (some cenv)).1
+      (Ref.bindRest σ₁ (σ.newFrame (some cenv)).1 formals.rest restArgs) defs σ₂)
+    (hpre : EvalsSeq (σ.newFrame (some cenv)).1 σ₂ pre σ₃)
+    (h : TailRuns env σ₃ (σ.newFrame (some cenv)).1 last r σ') :
+    Applies σ (.closure (.mk formals defs (pre ++ [last])) cenv) args env r σ' :=
+  TailRuns.applies ha hb hd hpre h
+
+/-- example: in `(if #t ((lambda () (f))) 0)` the call `(f)` is reached in tail position -/
+example : TailPath 0 {} 0
+    (.cond (.prim (.bool true) none)
+      (.call (.lambda (.mk ⟨[], none⟩ [] ([] ++ [.call (.sym "f" none) [] none])) none) [] none)
+      (some (.prim (.int 0) none)) none)
+    (({} : Store).newFrame (some 0)).2 0 (.call (.sym "f" none) [] none) :=
+  .cond_then (Evals.prim rfl) rfl (.lam_call EvalsArgs.nil rfl rfl .nil .nil .here)
+
 /-! ## 6. loops written with tail calls run at constant depth -/
 
 /-- the store after `(define (loop n acc) (if (= n 0) acc (loop (- n 1) (+ acc 1))))` in a root frame
